@@ -147,7 +147,11 @@ func c07(args []string) int {
 			if err := json.Unmarshal(raw, &j); err != nil {
 				return c07Res{Err: err.Error()}
 			}
-			return c07Exec(j)
+			r, ok := confirm(func() c07Res { return c07Exec(j) }, func(r c07Res) bool { return r.Diff != "" })
+			if !ok {
+				return c07Res{Err: unstableMsg}
+			}
+			return r
 		})
 	}
 	f := explore.ParseFlags("C07", args, nil)
